@@ -80,6 +80,25 @@ def check_assembly(ctx, case):
     kind = "ok" if f[0] == "ok" else f[1].split(":")[0]
     if kind not in DOCUMENTED:
         ctx.fail("an assembly mixing valid and invalid records ends with {}".format(f[1]), case)
+    if case.get("template"):
+        # plasmids derived from one annotated template: different record objects that carry the very same feature
+        # objects and reference list (CircularRecord(new_seq, features=tpl.features, annotations=tpl.annotations))
+        op = asm.asm_op(case)
+        ents = impl.build_entities(op[3], op[4])
+        recs = [ents[0].record] + [m.record for m in ents[1]]
+        tpl = max(recs, key=lambda r: sum(1 for x in r.features if x.qualifiers.get("citation")))
+        if any(x.qualifiers.get("citation") for x in tpl.features):
+            for r in recs:
+                if r is not tpl:
+                    r.features = [x for x in tpl.features if x.location is not None and int(x.location.end) <= len(r.seq)]
+                    r.annotations["references"] = tpl.annotations["references"]
+            reply2, _, _ = impl.run_asm(op, entities=ents)
+            f2 = reply2.split("\t")
+            kind2 = "ok" if f2[0] == "ok" else f2[1].split(":")[0]
+            if kind2 != kind:
+                ctx.fail("the same plasmids, annotated with the feature objects and the reference list of one template, end "
+                         "with {} instead of {}".format(f2[1] if f2[0] != "ok" else "a product", kind), case)
+            ctx.note("template-shared-annotations")
     ctx.note("assembly:" + kind)
     ctx.case({k: v for k, v in case.items() if k != "info"}, nontrivial=kind != "ok")
     ctx.op(asm.asm_op(case), None, reply=reply)
@@ -154,6 +173,8 @@ def run(ctx):
                 e["word"] = malformed_for(rng, asm.cls_by_name(e["cls"]), kits)
         if rng.random() < 0.2:
             case["mods"].append(case["mods"][0])
+        if any(e.get("refs") for e in [case["vector"]] + case["mods"]):
+            case["template"] = True
         ctx.guard(check_assembly, case)
 
 
